@@ -15,13 +15,13 @@ import numpy as np
 import felupe as fem
 
 from .. import gen, jobsim, refmodel, world
-from ..kernel import Discard, EventLog, InjectedFault, Streams, Violation, adigest
+from ..kernel import Discard, EventLog, InjectedFault, Streams, Violation, adigest, origin
 from .C15 import defgrad
 
 PROP = "C09"
 
 EVIDENCE = {
-    "probes_expected": ["affine-field-checked", "uniform-F-checked", "curve-y-checked", "curve-x-checked", "twin-compared", "history-immutable-checked", "distorted-mesh", "curved-tri6", "fault:solver_inexact", "material-curve-checked", "load-unload", "clamp-released-on-same-step", "x0-toplevel-container"],
+    "probes_expected": ["affine-field-checked", "uniform-F-checked", "curve-y-checked", "curve-x-checked", "twin-compared", "history-immutable-checked", "distorted-mesh", "curved-tri6", "fault:solver_inexact", "material-curve-checked", "load-unload", "clamp-released-on-same-step", "x0-toplevel-container", "paused-by-callback-then-evaluated-again"],
     "clauses_sampled_only": ["'material-level uniaxial, planar and biaxial curves agree with the same analytic stresses' (umat.view()) is a pure function of the material; it is evaluated once per run as sampling"],
 }
 
@@ -101,10 +101,16 @@ def generate(seed, tier, k):
     if k % 3 == 2:
         doc["faults"].append({"kind": "solver_inexact", "rel": r.choice([1e-12, 1e-9, 1e-6, 1e-4, 1e-3]), "seed": r.randrange(1000)})
     doc["c09"] = {"twin": r.random() < 0.5, "twin_seed": r.randrange(1 << 30), "view": r.random() < 0.3, "curve_items": r.random() < 0.3, "x0_toplevel": case != "patch" and r.random() < 0.25}
+    nsub_ = len(doc["steps"][0]["ramp"][0]["values"])
+    if case != "patch" and r.random() < 0.2:
+        doc["faults"].append({"kind": r.choice(["callback_raise", "callback_kbint"]), "step": 0, "substep": r.randrange(nsub_)})
+        doc["c09"]["resume"] = True
     if case == "uniaxial" and r.random() < 0.25:
         # two-phase history on the same Step object: first with the loaded face clamped (not
         # homogeneous, no oracle), then the clamp is released and the ramp continues
         doc["c09"]["release_clamp"] = True
+        doc["c09"].pop("resume", None)
+        doc["faults"] = [f for f in doc["faults"] if not f["kind"].startswith("callback")]
         doc["c09"]["twin"] = False
         doc["bc"]["clamped"] = True
     return doc
@@ -250,6 +256,11 @@ def simulate(doc, log, monitors=True):
                 ekw["x0"] = top
                 log.count("x0-toplevel-container")
             job, exc = eng.run_job(job_cls=fem.CharacteristicCurve, job_kwargs=jk, **ekw)
+            if dd["c09"].get("resume") and exc is not None and origin(exc) == "injected":
+                # the user's callback stopped the job (pause); the same job object is evaluated
+                # again: every record it holds is still a (displacement, force) pair
+                log.count("paused-by-callback-then-evaluated-again")
+                job, exc = eng.run_job(job=job, **ekw)
     return w, eng, mon, job, exc
 
 
@@ -266,7 +277,7 @@ def run(doc, log):
     dim = w.mesh.dim
     tol = doc.get("newton", {}).get("tol", 1.5e-8)
     slack = max(1.0, tol / 1.5e-8)
-    fk = "solver_inexact" if eng.fired else None
+    fk = "solver_inexact" if any(f["kind"] == "solver_inexact" for f in eng.fired) else None
     if doc["mesh"].get("perturb"):
         log.count("distorted-mesh")
         if not doc["mesh"].get("perturb_before_convert", True) and w.mesh.cell_type == "triangle6":
